@@ -92,6 +92,7 @@ def run(ck):
     vfile = os.path.join(common.THEORIES, "Props", PID + ".v")
     if os.path.exists(vfile):
         ck.build_proofs()
+        ck.build_proofs(props="ExecMonitor")   # monitor_silent: the trace monitor is silent on every model trace
     else:
         ck.notes["proofs"] = "coq/theories/Props/C19.v not present yet (model-side theorems are the exec-fault area's); " \
                              "only the end-to-end correspondence ran"
